@@ -18,6 +18,30 @@ serializing is tried and the reproduced container is judged by
              split a leaf) gives the reference's results and leaves it sound.
 A Python-only deployment is emulated by an Unpickler that resolves the class
 names in a pickle (always the C names) to the *Py classes.
+
+Containers reachable only IN A DATABASE (db_sweep; rtc.stubdb is the stated
+model of a ZODB connection: one record per oid = pickle of __getstate__() with
+persistent references, written for exactly the registered + newly reachable
+objects).  A C tree and a Python tree, each in a database of its own, are
+driven through the same history of calls and commits: filled (one leaf ..
+several levels), optionally committed (then every leaf is a stored object with
+its OWN oid; otherwise no leaf ever had one), shrunk by deletions to ONE leaf
+(the lowest / highest / a middle one), committed, and that leaf is then
+modified further (value replaced, key added, key removed, grown until it
+splits again, emptied, refilled), with a commit after every step.  After every
+commit, from the statement:
+  "byte-identical pickles for the same history": the two trees use the same
+      state form (None | inlined leaf | children + firstbucket) with the same
+      typed items, and the records the two commits wrote are the same bytes
+      under the same oids;
+  "reproduce a container with equal ordered contents that is itself sound and
+   fully usable": a FRESH connection that loads the records sees exactly the
+      reference contents (= the writer's), in a sound, usable tree; so does
+      the writer itself after its cache was swept (every second scenario);
+  "each loads the other's ... a database can be read and written by either":
+      the same for a reader of the OTHER implementation on a copy of the
+      storage; at the end that reader adds a key to the leaf and commits, and
+      the first implementation reads the result.
 """
 import argparse
 import concurrent.futures as cf
@@ -324,10 +348,239 @@ def run_config(s, cfg, n_random, exhaustive_len):
     return len([x for x in seen if x[1]])                 # non-empty states swept
 
 
+# ------------------------------------------------------- in a database
+def form_of(t):
+    """which of the documented state forms a tree uses"""
+    st = t.__getstate__()
+    if st is None:
+        return "empty"
+    return {1: "inlined-leaf", 2: "children+firstbucket"}.get(len(st), "undocumented(%d-tuple)" % len(st))
+
+
+def situation_of(t):
+    """The writer's tree, seen through its leaf chain only: empty / one leaf (that is or is not a stored object of
+    its own) / several leaves."""
+    b = t._firstbucket
+    if b is None:
+        return "empty"
+    if b._next is not None:
+        return "several-leaves"
+    return "one-leaf-with-own-oid" if b._p_oid is not None else "one-leaf-never-stored"
+
+
+def twin_class(fam, cls, impl):
+    base = cls.__name__.replace("Py", "")
+    return getattr(H.family_module(fam), base + ("Py" if impl == "py" else ""))
+
+
+def storage_for(fam, st, impl):
+    """A copy of the storage as a deployment of `impl` sees it (records name the classes; BTrees.XXBTree.XXBTree is
+    the Python class where the C extension is missing)."""
+    f = st.fork()
+    f.cls = {oid: twin_class(fam, c, impl) for oid, c in f.cls.items()}
+    return f
+
+
+def records_of(st, tid):
+    """{oid: (class name without Py, record bytes)} written by transaction tid"""
+    return {oid: (st.cls[oid].__name__.replace("Py", ""), st.load_serial(oid, tid)) for oid in st.log.get(tid, ())}
+
+
+def db_schedules(cfg):
+    """-> (label, fill, commit after the fill?, shrink, steps); a step = (name, ops) followed by a commit.  See the
+    module docstring."""
+    is_set, vals = cfg.is_set, cfg.vals
+    put = (lambda k, v=0: ("add", k)) if is_set else (lambda k, v=0: ("setitem", k, vals[v]))
+    rem = (lambda k: ("remove", k)) if is_set else (lambda k: ("delitem", k))
+    U = cfg.universe                                      # 15 values
+    leaf = cfg.sizes[0]
+    for n in (1, 2, 3, 4, 5, 7, 9, 13):
+        ks = U[1:n + 1]                                   # U[0] and U[n+1:] stay free
+        for order in ("asc", "desc"):
+            fill = tuple(put(k) for k in (ks if order == "asc" else ks[::-1]))
+            for stored in (True, False):
+                for m in (1, 2):
+                    if m > n or m > leaf:
+                        continue
+                    for where in ("lowest", "highest", "middle"):
+                        lo = {"lowest": 0, "highest": n - m, "middle": (n - m) // 2}[where]
+                        keep = ks[lo:lo + m]
+                        gone = [k for k in ks if k not in keep]
+                        if not gone and (where != "lowest" or not stored):
+                            continue                      # nothing to shrink: one variant is enough
+                        for dorder in ("asc", "desc"):
+                            if dorder == "desc" and len(gone) < 2:
+                                continue
+                            shrink = tuple(rem(k) for k in (gone if dorder == "asc" else gone[::-1]))
+                            fresh = [k for k in U if k not in ks]
+                            steps = [("after-shrink-to-one-leaf", shrink)]
+                            if not is_set:
+                                steps.append(("after-value-change-in-that-leaf", (put(keep[0], 1),)))
+                            steps.append(("after-insert-into-that-leaf", (put(fresh[0]),)))
+                            steps.append(("after-delete-from-that-leaf", (rem(fresh[0]),)))
+                            steps.append(("after-regrowing-that-leaf", tuple(put(k) for k in gone[:leaf + 1] + fresh[1:3])))
+                            steps.append(("after-emptying", tuple(rem(k) for k in sorted(set(keep + gone[:leaf + 1] + fresh[1:3])))))
+                            steps.append(("after-refill", (put(ks[0]), put(fresh[0], 1))))
+                            label = "fill-%d-%s:%s:keep-%d-%s:delete-%s" % (n, order, "committed" if stored else "not-committed", m, where, dorder)
+                            yield label, fill, stored, steps
+
+
+def db_sweep(s, cfg):
+    """-> number of distinct (situation, step, state form) combinations with a non-empty tree"""
+    from rtc import stubdb
+    is_set = cfg.is_set
+    combos = set()
+    done = cut = 0
+    for idx, (label, fill, stored, steps) in enumerate(db_schedules(cfg)):
+        evict = bool(idx % 2)
+        sts = {i: stubdb.Storage() for i in ("c", "py")}
+        conns = {i: sts[i].open() for i in sts}
+        trees = {i: cfg.cls[i]() for i in sts}
+        oids = {i: conns[i].add(trees[i]) for i in sts}
+        ref = H.RefMap(is_set)
+        hist = []
+        rep = Reporter(s, cfg, hist)
+        segments = [("after-fill", fill)] if stored else []
+        segments += steps
+        if not stored:
+            segments[0] = (segments[0][0], fill + segments[0][1])
+        ok = True
+        for step, ops in segments:
+            for op in ops:
+                H.apply_ref(ref, op)
+                for i in trees:
+                    H.apply_impl(trees[i], op)
+                hist.append(op)
+            expected = ref.contents()
+            sit = {i: situation_of(trees[i]) for i in trees}
+            via = "%s:%s" % (sit["c"] if sit["c"] == sit["py"] else "c-%s/py-%s" % (sit["c"], sit["py"]), step)
+            suffix = ":inlined-nonroot-leaf" if inlined_nonroot_leaf(trees["c"]) else ""
+            extra = {"schedule": label, "step": step, "writer_cache_swept_after_commit": evict}
+            # the writers themselves (guards the comparison below; a difference here is C01's, reported all the same)
+            for i in trees:
+                s.evaluations += 1
+                if H.contents(trees[i], is_set) != expected:
+                    rep.fail(i, "contents", "db-writer:" + via, "the writer itself holds %r, expected %r" % (H.contents(trees[i], is_set), expected), **extra)
+                    ok = False
+            if not ok:
+                break
+            # same history => same state form, same typed items
+            s.evaluations += 1
+            fc, fp = form_of(trees["c"]), form_of(trees["py"])
+            if fc != fp or typed_state(trees["c"]) != typed_state(trees["py"]):
+                rep.fail("twin", "state-differs", "db:" + via, "before the commit the C tree stores %s %r, the Python tree %s %r"
+                         % (fc, typed_state(trees["c"]), fp, typed_state(trees["py"])), **extra)
+            hist.append(("commit",))
+            tids = {}
+            for i in trees:
+                s.evaluations += 1
+                try:
+                    tids[i] = conns[i].commit()
+                except Exception as e:
+                    rep.fail(i, "raises", "db-commit:" + via, "commit raised %s: %s" % (type(e).__name__, e), **extra)
+                    ok = False
+            if not ok:
+                break
+            if expected:
+                combos.add((via, fc))
+            # "byte-identical pickles for the same history": the records of this transaction
+            s.evaluations += 1
+            rc, rp = records_of(sts["c"], tids["c"]), records_of(sts["py"], tids["py"])
+            if rc != rp:
+                def plain(st, recs):
+                    """the records un-pickled (references as placeholders), every item with its exact type"""
+                    def typed(x):
+                        if isinstance(x, tuple):
+                            return tuple(typed(y) for y in x)
+                        return ("ref", x.oid) if isinstance(x, stubdb.Ref) else (type(x).__name__, x)
+                    return {oid: (name, typed(st.open()._loads(data, stubdb.Ref))) for oid, (name, data) in recs.items()}
+                # diagnosis for the key only: equal states whose pickles differ merely in which equal objects are shared (memo)?
+                try:
+                    kind = "object-sharing-only" if plain(sts["c"], rc) == plain(sts["py"], rp) else "db-record:" + via
+                except Exception:
+                    kind = "db-record:" + via
+                show = lambda r: {stubdb.u64(o): v for o, v in sorted(r.items())}
+                rep.fail("twin", "bytes-differ", kind, "the records written by the commit differ: C %r, Python %r" % (show(rc), show(rp)), **extra)
+            # fresh readers: the same implementation, and the other one on a copy of the storage
+            for w in ("c", "py"):
+                for r in ("c", "py"):
+                    s.evaluations += 1
+                    st = sts[w] if r == w else storage_for(cfg.fam, sts[w], r)
+                    how = "db-reload" if r == w else "db-reload-%s-written-by-%s" % (r, w)
+                    try:
+                        u = st.open().get(oids[w])
+                        bad = None
+                        if type(u) is not cfg.cls[r]:
+                            bad = ("class", "the reader got a %s" % type(u).__name__)
+                        if not bad:
+                            try:
+                                H.walk(u, is_set)
+                            except H.Damage as e:
+                                bad = ("unsound", "as loaded: %s" % e)
+                        bad = bad or judge(cfg, u, expected, True)
+                    except Exception as e:
+                        bad = ("raises", "loading raised %s: %s" % (type(e).__name__, e))
+                    if bad:
+                        rep.fail(r, bad[0], "%s:%s%s" % (how, via, suffix if bad[0] in ("contents", "unsound", "unusable") else ""),
+                                 "a fresh %s reader of the records written by %s: %s" % (r, w, bad[1]), written_by=w, **extra)
+                        ok = False
+            if evict:
+                for i in trees:
+                    s.evaluations += 1
+                    conns[i].sweep()
+                    try:
+                        got = H.contents(trees[i], is_set)
+                        bad = None if got == expected else "holds %r, expected %r" % (got, expected)
+                    except Exception as e:
+                        bad = "raised %s: %s" % (type(e).__name__, e)
+                    if bad:
+                        rep.fail(i, "contents", "db-writer-after-cache-sweep:%s%s" % (via, suffix), "the writer after cache.minimize() " + bad, **extra)
+                        ok = False
+            if not ok:
+                break                                     # what follows would be a consequence
+        if not ok:
+            cut += 1
+            continue
+        done += 1
+        if not s.samples and stored and cfg.sizes[0] > 2 and len(fill) > 4 and not is_set:
+            tc = trees["c"]
+            s.samples.append({"database": "rtc.stubdb", "container": cfg.tag(), "schedule": label,
+                              "history": [list(map(repr, o)) for o in hist], "final_contents": repr(ref.contents()),
+                              "final_state_form_C_and_Python": form_of(tc),
+                              "checked_after_every_commit": "state form + typed items C = Python; records byte-identical; fresh reader "
+                              "(same and other implementation) sees the reference contents in a sound, usable tree"})
+        # "read and written by either": the other implementation takes over the database, changes the leaf, hands it back
+        fresh = [k for k in cfg.universe if k not in ref.d][0]
+        op = ("add", fresh) if is_set else ("setitem", fresh, cfg.vals[1])
+        H.apply_ref(ref, op)
+        for w in ("c", "py"):
+            o = "py" if w == "c" else "c"
+            s.evaluations += 1
+            try:
+                st = storage_for(cfg.fam, sts[w], o)
+                c = st.open()
+                u = c.get(oids[w])
+                H.apply_impl(u, op)
+                c.commit()
+                back = storage_for(cfg.fam, st, w).open().get(oids[w])
+                bad = judge(cfg, back, ref.contents(), True)
+            except Exception as e:
+                bad = ("raises", "%s: %s" % (type(e).__name__, e))
+            if bad:
+                rep.fail(w, bad[0], "db-handover:written-by-%s-then-%s:%s" % (w, o, situation_of(trees[w])),
+                         "database written by %s, then %r committed by %s, read again by %s: %s" % (w, op, o, w, bad[1]), schedule=label)
+    s.samples.append({"db_counts": True, "schedules_run_to_the_end": done, "schedules_cut_short_by_a_failure": cut,
+                      "situation_step_form_combinations": sorted("%s -> %s" % c for c in combos)})
+    return len(combos)
+
+
 def run_job(job):
     fam, kind, sizes, sub, n_random, exh = job
     part = Standin(name="part", bound="")
-    distinct = run_config(part, Config(fam, kind, sizes, sub), n_random, exh)
+    if n_random == "db":
+        distinct = db_sweep(part, Config(fam, kind, sizes, sub))
+    else:
+        distinct = run_config(part, Config(fam, kind, sizes, sub), n_random, exh)
     return part.evaluations, distinct, part.failures, part.samples
 
 
@@ -343,11 +596,21 @@ def main():
                       "(b) every history of <=%d set/del (add/remove) calls over 5 keys, (c) %d seeded histories of 20..40 calls over the "
                       "whole public alphabet on 12 keys incl. bool / float-subclass inputs; plus the ramps (a) on a tree subclass whose "
                       "`_bucket_type` is a leaf subclass (2,3).  Per state: setstate(getstate), copy.copy, copy.deepcopy, pickle protocols "
-                      "0..%d written by C and by Python, loaded by C and by Python (class names resolved to *Py)" % (exh, n_random, PROTOCOLS[-1]),
-                rule="case = one serialization (or one lockstep call) of one reached state; distinct non-trivial = distinct non-empty "
-                     "typed states (shape + keys + values) swept",
+                      "0..%d written by C and by Python, loaded by C and by Python (class names resolved to *Py).  DATABASE (rtc.stubdb; "
+                      "BTree and TreeSet, sizes (3,3),(2,2)): a C and a Python tree in lockstep, each in its own storage: fill 1,2,3,4,5,7,9,13 "
+                      "keys (ascending / descending), commit or not (the leaves then have / never had an oid), delete down to the 1 or 2 "
+                      "lowest / highest / middle keys (ascending / descending deletes) = ONE leaf, commit, then on that leaf: replace a value, "
+                      "add a key, remove it, add leaf-size+3 keys (splits again), delete all, add two - a commit after every step; per commit: "
+                      "state form and typed state C = Python, records byte-identical, fresh reader of the same and of the other implementation "
+                      "(classes of a storage copy swapped) judged for contents / soundness / usability, writer re-read after cache.minimize() "
+                      "in every second schedule; at the end the other implementation adds a key and commits, the first one reads it"
+                      % (exh, n_random, PROTOCOLS[-1]),
+                rule="case = one serialization (or one lockstep call) of one reached state, or one comparison / fresh reader after one commit; "
+                     "distinct non-trivial = distinct non-empty typed states (shape + keys + values) swept + distinct (writer situation, "
+                     "step, state form) combinations committed with a non-empty tree",
                 functions=["bucket_getstate", "_bucket_setstate", "_set_setstate", "BTree_getstate", "_BTree_setstate",
-                           "_Tree.__getstate__/__setstate__", "Bucket/Set.__getstate__/__setstate__", "_Base.__reduce__ (class swap)"])
+                           "_Tree.__getstate__/__setstate__", "Bucket/Set.__getstate__/__setstate__", "_Base.__reduce__ (class swap)",
+                           "_BTree_set / _Tree._set, _del (which object is marked changed when the single leaf changes)"])
     jobs = []
     for fam in H.fams():
         for kind in ("BTree", "TreeSet", "Bucket", "Set"):
@@ -355,14 +618,25 @@ def main():
             jobs += [(fam, kind, sizes, False, n_random, exh) for sizes in ([(3, 3), (2, 2)] if tree else [(None, None)])]
             if tree:
                 jobs.append((fam, kind, (2, 3), True, 0, 0))
+                jobs += [(fam, kind, sizes, False, "db", 0) for sizes in ((3, 3), (2, 2))]
     # configurations are independent: spread them over the cores (results are merged in job order)
     ctx = multiprocessing.get_context("fork")
     with cf.ProcessPoolExecutor(max_workers=min(16, os.cpu_count() or 1, len(jobs)), mp_context=ctx) as ex:
+        db = {"schedules_run_to_the_end": 0, "schedules_cut_short_by_a_failure": 0, "situation_step_form_combinations": set()}
+        first = {}
         for evaluations, distinct, failures, samples in ex.map(run_job, jobs):
             s.evaluations += evaluations
             s.distinct_nontrivial += distinct
             s.failures.extend(failures)
-            s.samples = s.samples or samples
+            for x in samples:
+                if x.get("db_counts"):
+                    for k in db:
+                        db[k] = db[k] + x[k] if isinstance(db[k], int) else db[k] | set(x[k])
+                else:
+                    first.setdefault("db" if "database" in x else "memory", x)
+        s.samples = [first[k] for k in ("memory", "db") if k in first]
+        db["situation_step_form_combinations"] = sorted(db["situation_step_form_combinations"])
+        s.samples.append({"database_part": db})
     write_standin(a.out, s)
 
 
